@@ -1,10 +1,10 @@
-import KitModel.Broadcaster
-import Std.Data.HashSet
+import KitModel.BroadcasterAccept
 /-!
 Driver for property C11: `kitdrv C11` — state-set simulation of the broadcaster LTS.
 
 Input lines (one answer line each):
-* `reset variant=fixed|orig`         start a new trace from the initial state
+* `reset variant=fixed|orig [reduce=0] [hooked=1]`  start a new trace from the initial state
+  (`hooked=1`: every Broadcast lock acquisition is reported by `ev k=bacq v=<n>`)
 * `ev k=bcall v=<n>` | `ev k=bret t=<ticket>` | `ev k=scall` | `ev k=sret h=<tag>` |
   `ev k=cancel h=<tag>` | `ev k=recv h=<tag> v=<n>` | `ev k=ccall` | `ev k=cret`
   → `ok n=<size of the τ-closed state set>` or `reject at=<event> prev=<size> state=<one previous state>`
@@ -16,50 +16,14 @@ Input lines (one answer line each):
 namespace Driver.C11
 open Kit Kit.Broadcaster
 
-abbrev SSet := Std.HashSet State
-
 /-- Safety valve: a trace whose state set grows beyond this is answered `overflow` (the harness
 counts it as not validated, never as accepted). -/
 def cap : Nat := 40000
 
-/-- Driver-side reduction (on by default, `reset … reduce=0` switches it off): once a forwarder has
-left its loop (`pc` ∈ exiting, wantLock, done) the contents of its buffer, its hand and the ghost
-`missed` flag can never influence an observable event again (nothing is delivered any more; a
-Broadcast reaching that subscriber can always pass after at most the internal step that closes the
-exit channel).  States that differ only there are merged; this keeps the state set small when
-Broadcasts race with a leaving subscriber (push-or-skip is a coin toss per value).  The harness
-cross-checks reduced against unreduced verdicts on the traces where the unreduced set fits. -/
-def normSub (u : Sub) : Sub :=
-  match u.pc with
-  | .exiting | .wantLock | .done => { u with buf := [], hand := none, missed := false }
-  | _ => u
-
-def norm (reduce : Bool) (s : State) : State :=
-  if reduce then { s with subs := s.subs.map normSub } else s
-
-/-- τ-closure by worklist. `fuel` bounds the number of expansions (never reached in practice;
-reported as an error if it is). -/
-partial def closure (v : Variant) (reduce : Bool) (todo : List State) (seen : SSet) : SSet :=
-  match todo with
-  | [] => seen
-  | s :: rest =>
-    if seen.size > cap then seen else
-    let succs := ((taus v s).filterMap (step v s)).map (norm reduce)
-    let (todo', seen') := succs.foldl (fun (acc : List State × SSet) s' =>
-      if acc.2.contains s' then acc else (s' :: acc.1, acc.2.insert s')) (rest, seen)
-    closure v reduce todo' seen'
-
-def closeSet (v : Variant) (reduce : Bool) (xs : List State) : SSet :=
-  let seen : SSet := xs.foldl (fun acc s => acc.insert (norm reduce s)) {}
-  closure v reduce seen.toList seen
-
-def applyObs (v : Variant) (reduce : Bool) (cur : SSet) (o : Obs) : SSet :=
-  let nexts := cur.toList.flatMap (fun s => (obsLabels s o).filterMap (step v s))
-  closeSet v reduce nexts
-
 def parseObs (l : Line) : Option Obs :=
   match l.get? "k" with
   | some "bcall" => (l.nat? "v").map .bcall
+  | some "bacq" => (l.nat? "v").map .bacq
   | some "bret" => (l.nat? "t").map .bret
   | some "scall" => some .scall
   | some "sret" => (l.nat? "h").map .sret
@@ -81,45 +45,44 @@ def showState (s : State) : String :=
     | none => "-"
   s!"bc:{bc};closed:{s.closed};closeCh:{s.closeCh};log:{showNats (s.log.map (·.val))};waitB:{showNats (s.waitB.map (·.val))};retB:{showNats (s.retB.map (·.1))};waitS:{showNats s.waitS};retS:{showNats s.retS};close:{s.closeNew}/{s.closePre}/{s.closePost}/{s.closeReturned};subs:{"".intercalate (s.subs.map showSub)}"
 
-def pendingCall (s : State) : Bool :=
-  s.bc.isSome || !s.waitB.isEmpty || !s.waitS.isEmpty || s.closeNew + s.closePre + s.closePost > 0
-
 structure DState where
   variant : Variant
   reduce : Bool
-  cur : SSet
+  hooked : Bool
+  cur : List State
   dead : Bool
 
+/-- All deciding is done by `Kit.Broadcaster.acceptStep` (model side, proved sound); this function
+parses the line and prints the verdict. -/
 def stepLine (d : DState) (line : String) : DState × String :=
   let l := parseLine line
   match l.op with
   | "reset" =>
     let v := if l.get? "variant" == some "orig" then Variant.orig else Variant.fixed
     let reduce := l.get? "reduce" != some "0"
-    let cur := closeSet v reduce [init]
-    ({ variant := v, reduce, cur, dead := false }, s!"ok n={cur.size}")
+    let hooked := l.get? "hooked" == some "1"
+    let a := startSet v reduce hooked cap
+    ({ variant := v, reduce, hooked, cur := a.list, dead := false }, s!"ok n={a.size}")
   | "ev" =>
     match parseObs l with
     | none => (d, "error bad-event")
     | some o =>
       if d.dead then (d, "dead") else
-      let nxt := applyObs d.variant d.reduce d.cur o
-      if nxt.size > cap then
-        ({ d with cur := nxt, dead := true }, s!"overflow n={nxt.size}")
-      else if nxt.size == 0 then
-        let st := match d.cur.toList with
+      let a := acceptStep d.variant d.reduce d.hooked cap d.cur o
+      if a.size > cap then
+        ({ d with cur := a.list, dead := true }, s!"overflow n={a.size}")
+      else if a.size == 0 then
+        let st := match d.cur with
           | s :: _ => showState s
           | [] => "-"
-        ({ d with cur := nxt, dead := true }, s!"reject at={line.trimAscii.toString.replace " " "_"} prev={d.cur.size} state={st.replace " " "_"}")
-      else ({ d with cur := nxt }, s!"ok n={nxt.size}")
+        ({ d with cur := [], dead := true }, s!"reject at={line.trimAscii.toString.replace " " "_"} prev={d.cur.length} state={st.replace " " "_"}")
+      else ({ d with cur := a.list }, s!"ok n={a.size}")
   | "stuck" =>
-    let k := (d.cur.toList.filter (fun s => pendingCall s && (taus d.variant s).isEmpty)).length
-    (d, s!"stuck n={k} of={d.cur.size}")
+    (d, s!"stuck n={(stuckStates d.variant d.cur).length} of={d.cur.length}")
   | "" => (d, "ok")
   | _ => (d, "error unknown-op")
 
 def main (_args : List String) : IO UInt32 := do
-  let cur := closeSet .fixed true [init]
-  Kit.lineLoop stepLine { variant := .fixed, reduce := true, cur, dead := false }
+  Kit.lineLoop stepLine { variant := .fixed, reduce := true, hooked := false, cur := (startSet .fixed true false cap).list, dead := false }
   return 0
 end Driver.C11
